@@ -282,10 +282,17 @@ Proof.
   unfold g_refresh_local. simpl. repeat split.
   destruct (g_oid (g_loc e)) as [o|]; [destruct (kmem o (w_loids w))|]; reflexivity.
 Qed.
+Lemma zero_orphan_keeps a b s :
+  g_oid (zero_orphan a b s) = g_oid s /\ g_exists (zero_orphan a b s) = g_exists s /\ g_path (zero_orphan a b s) = g_path s.
+Proof. unfold zero_orphan. destruct (a || b); repeat split. Qed.
 Lemma with_changed_keeps e :
   g_key (with_local_changed e) = g_key e /\ g_path (g_loc (with_local_changed e)) = g_path (g_loc e) /\
-  g_rem (with_local_changed e) = g_rem e.
-Proof. repeat split. Qed.
+  g_oid (g_rem (with_local_changed e)) = g_oid (g_rem e) /\ g_exists (g_rem (with_local_changed e)) = g_exists (g_rem e) /\
+  g_path (g_rem (with_local_changed e)) = g_path (g_rem e).
+Proof.
+  unfold with_local_changed. cbn [g_key g_loc g_rem g_path].
+  destruct (zero_orphan_keeps (has_oid (g_loc e)) (pending (g_rem e)) (g_rem e)) as [A [B C]]. repeat split; assumption.
+Qed.
 
 (* [leaf]: the local object of the entry is not a non-empty folder (deleting one raises and nothing is cleared) *)
 Definition local_leaf (w : gworld) (e : gent) : Prop :=
@@ -311,10 +318,11 @@ Proof.
   clear Hbp.
   set (e1 := g_refresh_local w e).
   set (e2 := if needs_push e1 then with_local_changed e1 else e1).
-  assert (K: g_key e2 = g_key e /\ g_path (g_loc e2) = g_path (g_loc e) /\ g_rem e2 = g_rem e).
+  assert (K: g_key e2 = g_key e /\ g_path (g_loc e2) = g_path (g_loc e) /\
+             g_oid (g_rem e2) = g_oid (g_rem e) /\ g_exists (g_rem e2) = g_exists (g_rem e) /\ g_path (g_rem e2) = g_path (g_rem e)).
   { destruct (refresh_keeps w e) as [A [B C]]. unfold e2. fold e1 in A, B, C.
-    destruct (needs_push e1); [destruct (with_changed_keeps e1) as [A' [B' C']]|]; repeat split; congruence. }
-  destruct K as [K1 [K2 K3]]. rewrite K1, K2.
+    destruct (needs_push e1); [destruct (with_changed_keeps e1) as [A' [B' [C1 [C2 C3]]]]|]; repeat split; congruence. }
+  destruct K as [K1 [K2 [K3 [K4 K5]]]]. rewrite K1, K2.
   assert (Hpush: forall a, In a (if needs_push e1 then [GPushLocal (g_key e)] else []) -> a = GPushLocal (g_key e)).
   { intros a Ha. destruct (needs_push e1); [|destruct Ha]. destruct Ha as [Ha|[]]. symmetry. exact Ha. }
   intros H. destruct (kmem (g_key e) (g_req st)) eqn:Hr.
@@ -331,7 +339,7 @@ Proof.
         -- intros _ _. simpl. rewrite kmem_kdel, N.eqb_refl. simpl. rewrite kmem_kadd, N.eqb_refl. split; reflexivity.
         -- intros _ _ Hf _. simpl. eexists. split.
            ++ eapply find_put_key; [|exact Hf]. reflexivity.
-           ++ simpl. rewrite ?K3. repeat split; try reflexivity. unfold is_local_deletion. simpl. apply andb_false_r.
+           ++ simpl. repeat split; try assumption; try reflexivity. unfold is_local_deletion. simpl. apply andb_false_r.
     + inversion H; subst; clear H. split; [|split; [|split; [|discriminate]]].
       * intros a Ha. left. apply Hpush. exact Ha.
       * intros _ _. simpl. rewrite kmem_kdel, N.eqb_refl. simpl. rewrite kmem_kadd, N.eqb_refl. split; reflexivity.
@@ -468,7 +476,9 @@ Proof.
     eexists. split.
     + eapply find_put_key; [|exact Hf1]. cbn [g_key]. exact Hk1.
     + unfold g_latest. cbn. split; [reflexivity|]. split; [apply andb_false_r|]. split; [exact Ho1|].
-      intros p Hp Hn. destruct (Hst p Hp Hn) as [Hc [Hs1 Hs2]]. rewrite Hc. repeat split; assumption.
+      intros p Hp Hn. destruct (Hst p Hp Hn) as [Hc [Hs1 Hs2]].
+      destruct (zero_orphan_keeps (has_oid (g_rem e1)) (pending (g_loc e1)) (g_loc e1)) as [Z1 _].
+      rewrite Z1, Hc. repeat split; assumption.
   - split; [exact HQ|]. split; [exact HX|]. split; [split; [congruence|reflexivity]|]. intros pl Hpl. discriminate.
 Qed.
 
